@@ -391,6 +391,19 @@ func c19Rate(c *Ctx) {
 						}
 					}
 				}
+			case *ssa.Lookup:
+				// bareUnits[unit] on a package-level set written once: map[string]bool (true entries) or a comma-ok lookup
+				if lit := globalLiteral(c, loadedGlobal(x.X)); lit != nil {
+					for _, k := range lit.Keys {
+						if k == nil || k.Kind() != constant.String {
+							continue
+						}
+						ks := constant.StringVal(k)
+						if v, has := lit.Consts[ks]; x.CommaOk || (has && v.Kind() == constant.Bool && constant.BoolVal(v)) {
+							units[ks] = true
+						}
+					}
+				}
 			case *ssa.Store:
 				if s, ok := constString(x.Val); ok && s == "1s" {
 					has1s = true
